@@ -157,14 +157,39 @@ def _array_consts(e, out, seen):
 _SK = [0]
 
 
-def quick_instantiate(pc, goal, timeout_ms):
-    """Sound, incomplete pre-pass: skolemise a universally quantified goal, instantiate the universally
-    quantified hypotheses at the index terms that occur in the goal and the quantifier-free hypotheses, drop the
-    quantifiers and decide the quantifier-free rest by bit-blasting.  Only an `unsat` answer is used."""
+def _consts(e, out, seen):
+    if e.get_id() in seen:
+        return out
+    seen.add(e.get_id())
+    if z3.is_quantifier(e):
+        _consts(e.body(), out, seen)
+    elif z3.is_app(e):
+        if e.num_args() == 0 and e.decl().kind() == z3.Z3_OP_UNINTERPRETED:
+            out.add(e.get_id())
+        for c in e.children():
+            _consts(c, out, seen)
+    return out
+
+
+_CONSTS_CACHE = {}
+
+
+def consts_of(e):
+    k = e.get_id()
+    if k not in _CONSTS_CACHE:
+        _CONSTS_CACHE[k] = frozenset(_consts(e, set(), set()))
+        _KEEP.append(e)
+    return _CONSTS_CACHE[k]
+
+
+def quick_instantiate(pc, goal, timeout_ms, rounds=2):
+    """Sound, incomplete pre-pass: skolemise a universally quantified goal, keep the hypotheses in the goal's cone of
+    influence, instantiate the universally quantified ones at the index terms (array indices, arguments of
+    uninterpreted functions) that occur in the goal and the quantifier-free hypotheses - twice, so that terms created
+    by the first round are used too - drop the quantifiers and decide the quantifier-free rest.  Only `unsat` is used."""
     hyps = _conjuncts(pc, [])
-    qh = [h for h in hyps if z3.is_quantifier(h) and h.is_forall() and h.num_vars() == 1]
-    rest = [h for h in hyps if not has_quant_cached(h)]
     goals = _conjuncts(goal, [])
+    deadline = time.time() + timeout_ms / 1000.0
     for g in goals:
         g0 = g
         if z3.is_quantifier(g) and g.is_forall() and g.num_vars() == 1:
@@ -173,33 +198,58 @@ def quick_instantiate(pc, goal, timeout_ms):
             g0 = z3.substitute_vars(g.body(), sk)
         if _has_quant(g0):
             return False
-        terms = []
-        seen = set()
-        _select_indices(g0, terms, seen)
-        garr = array_consts_of(g0)
-        for h in rest:
-            if array_consts_of(h) & garr:
-                _select_indices(h, terms, seen)
-        terms = terms[:24]
-        rel_qh = [q for q in qh if (array_consts_of(q) & garr) or not array_consts_of(q)]
-        # rng => (p1 and p2 and ...): each conjunct is decided on its own (their conjunction's negation is a
-        # disjunction the SAT core handles far worse than the separate queries)
         extra = []
         while z3.is_implies(g0):
             extra.extend(_conjuncts(g0.arg(0), []))
             g0 = g0.arg(1)
+        # cone of influence over uninterpreted constants
+        rel = set(consts_of(g0))
+        for h in extra:
+            rel |= consts_of(h)
+        chosen = []
+        pending = list(hyps)
+        changed = True
+        while changed:
+            changed = False
+            rest_p = []
+            for h in pending:
+                ch = consts_of(h)
+                if (ch & rel) or not ch:
+                    chosen.append(h)
+                    if not ch <= rel:
+                        rel |= ch
+                        changed = True
+                else:
+                    rest_p.append(h)
+            pending = rest_p
+        qh = [h for h in chosen if z3.is_quantifier(h) and h.is_forall() and h.num_vars() == 1]
+        qf = [h for h in chosen if not has_quant_cached(h)]
+        base = qf + extra
         insts = []
-        for q in rel_qh:
-            for t in terms:
-                if t.sort() == q.var_sort(0):
-                    insts.append(z3.substitute_vars(q.body(), t))
-        deadline = time.time() + timeout_ms / 1000.0
-        for part in _conjuncts(g0, []):
+        seen_inst = set()
+        for _round in range(rounds):
+            terms = []
+            seen = set()
+            _select_indices(g0, terms, seen)
+            for h in base + insts:
+                _select_indices(h, terms, seen)
+            terms = terms[:40]
+            new = []
+            for q in qh:
+                for t in terms:
+                    if t.sort() == q.var_sort(0):
+                        key = (q.get_id(), t.get_id())
+                        if key not in seen_inst:
+                            seen_inst.add(key)
+                            new.append(z3.substitute_vars(q.body(), t))
+            if not new:
+                break
+            insts.extend(new)
+        parts = _conjuncts(g0, [])
+        for part in parts:
             s = z3.Solver()
             s.set("timeout", max(1000, int((deadline - time.time()) * 1000)))
-            for h in rest:
-                s.add(h)
-            for h in extra:
+            for h in base:
                 s.add(h)
             for h in insts:
                 s.add(h)
@@ -207,7 +257,7 @@ def quick_instantiate(pc, goal, timeout_ms):
             tq = time.time()
             rq = s.check()
             if os.environ.get("A5VERIF_TRACE2"):
-                print("   [part %.2fs %s] terms=%d insts=%d rest=%d %s" % (time.time() - tq, rq, len(terms), len(insts), len(rest), str(part)[:80].replace("\n", " ")), flush=True)
+                print("   [part %.2fs %s] insts=%d hyps=%d %s" % (time.time() - tq, rq, len(insts), len(base), str(part)[:80].replace("\n", " ")), flush=True)
             if rq != z3.unsat:
                 return False
     return True
